@@ -607,6 +607,72 @@ func init() {
 				}
 			}
 		}
+		// the shorthand constructors (Float64Min/Max, Float32Min/Max, Float64, Float32) at special bounds: either the
+		// constructor refuses the bound, or every draw is a value of the documented range (no assertion, no NaN)
+		for _, b := range []float64{math.Inf(1), math.Inf(-1), 0, math.Copysign(0, -1), math.MaxFloat64, -math.MaxFloat64, math.SmallestNonzeroFloat64, 1.5, -1.5, math.NaN()} {
+			for k := 0; k < 4; k++ {
+				b := b
+				var name string
+				var g64 *rapid.Generator[float64]
+				var g32 *rapid.Generator[float32]
+				var lo, hi float64
+				built := func() (ok bool) {
+					defer func() {
+						if recover() != nil {
+							ok = false
+						}
+					}()
+					switch k {
+					case 0:
+						name, lo, hi = fmt.Sprintf("Float64Min(%v)", b), b, math.MaxFloat64
+						g64 = rapid.Float64Min(b)
+					case 1:
+						name, lo, hi = fmt.Sprintf("Float64Max(%v)", b), -math.MaxFloat64, b
+						g64 = rapid.Float64Max(b)
+					case 2:
+						name, lo, hi = fmt.Sprintf("Float32Min(%v)", b), float64(float32(b)), math.MaxFloat32
+						g32 = rapid.Float32Min(float32(b))
+					default:
+						name, lo, hi = fmt.Sprintf("Float32Max(%v)", b), -math.MaxFloat32, float64(float32(b))
+						g32 = rapid.Float32Max(float32(b))
+					}
+					return true
+				}()
+				m.tag("float-shorthand")
+				m.eval(fmt.Sprintf("float-shorthand %d %v", k, b), built)
+				if !built {
+					continue // refused at construction: fine
+				}
+				if b != b || lo > hi {
+					report("float-shorthand", fmt.Sprintf("%s: the constructor accepted a bound that leaves no value", name), map[string]string{"k": fmt.Sprint(k), "bound": fmt.Sprint(math.Float64bits(b))})
+					continue
+				}
+				for j := 0; j < 6; j++ {
+					ws := r.words(12)
+					if j == 0 {
+						ws = make([]uint64, 12)
+					}
+					var what string
+					chk := func(f float64) string {
+						if f != f {
+							return "NaN"
+						}
+						if f < lo || f > hi {
+							return fmt.Sprintf("%v outside [%v, %v]", f, lo, hi)
+						}
+						return ""
+					}
+					if g64 != nil {
+						what, _ = nativeDraw(name, g64, ws, j%2 == 1, r.u64(), chk)
+					} else {
+						what, _ = nativeDraw(name, g32, ws, j%2 == 1, r.u64(), func(f float32) string { return chk(float64(f)) })
+					}
+					if what != "" {
+						report("float-shorthand", what, map[string]string{"k": fmt.Sprint(k), "bound": fmt.Sprint(math.Float64bits(b)), "words": joinU64(ws)})
+					}
+				}
+			}
+		}
 		// every sized integer kind at its own extremes
 		for i := 0; i < 600*scale; i++ {
 			ws := r.words(8)
@@ -952,6 +1018,46 @@ func init() {
 	}
 }
 
+// shrink a failing run of "slice of uint16 > 3 whose sum exceeds 5000" that starts from the given words
+func c05ElementFilter(buf []uint64) string {
+	prop := func(t *rapid.T) {
+		xs := rapid.SliceOf(rapid.Uint16().Filter(func(v uint16) bool { return v > 3 })).Draw(t, "xs")
+		sum := 0
+		for _, x := range xs {
+			sum += int(x)
+		}
+		if sum > 5000 {
+			t.Fatalf("sum")
+		}
+	}
+	s := rapid.VerifBufStream(buf, true)
+	var e rapid.VerifErr
+	if p := runTB(func() { e = rapid.VerifCheckOnce(rapid.VerifNewT(newRecTB("efc"), s, false), prop) }); p != nil {
+		return ""
+	}
+	if e.IsNil() || e.Kind() == "invalid" {
+		return "" // these words do not fail: nothing to minimize
+	}
+	var res []uint64
+	var e2 rapid.VerifErr
+	if p := runTB(func() { res, e2 = rapid.VerifShrink(newRecTB("efc"), time.Now().Add(time.Minute), s.Rec(), e, prop) }); p != nil {
+		return fmt.Sprintf("shrink crashed: %v", p)
+	}
+	if rapid.VerifCompareData(res, s.Rec().Data) > 0 {
+		return fmt.Sprintf("minimized [%s] is larger than the recording it started from [%s]", joinU64(res), joinU64(s.Rec().Data))
+	}
+	s3 := rapid.VerifBufStream(res, true)
+	var e3 rapid.VerifErr
+	runTB(func() { e3 = rapid.VerifCheckOnce(rapid.VerifNewT(newRecTB("efc"), s3, false), prop) })
+	if e3.IsNil() || e3.Kind() == "invalid" || !rapid.VerifSameError(e3, e2) {
+		return fmt.Sprintf("the result of shrink [%s] replays to %s, shrink reported %s", joinU64(res), showErr(e3), showErr(e2))
+	}
+	if !equalWords(s3.Rec().Data, res) {
+		return fmt.Sprintf("the result of shrink [%s] is not what its replay records [%s]", joinU64(res), joinU64(s3.Rec().Data))
+	}
+	return ""
+}
+
 // generators of reference values (slices, maps, pointers), kept across calls like package-level generators
 var (
 	c04PermSrc = []int{1, 2, 3, 4, 5}
@@ -1147,10 +1253,34 @@ func init() {
 				m.violate(violation{"C05", "site", what, p})
 			}
 		}
+		// element-level Filter inside a collection: lowering a block of a rejected-then-retried element makes the accepted
+		// recording shorter and moves other blocks to the position being minimized.  Explicit bitstreams (three elements,
+		// each: continue coin, bias block, value block; then the stop coin); the result of shrink must replay to the same
+		// failure and be its own recording.
+		const cont, bias16, bias3 = uint64(1) << 52, uint64(7) << 50, uint64(1) << 51
+		for k := 0; k < 6*scale; k++ {
+			a, b2, c3 := uint64(4611), uint64(300), uint64(500)
+			if k > 0 {
+				a, b2, c3 = 4000+uint64(r.intn(1500)), 4+uint64(r.intn(900)), 4+uint64(r.intn(1200))
+			}
+			buf := []uint64{cont, bias16, a, bias3, bias16 | b2, b2, bias16, bias16 | (c3 * 83 % 65536), c3, 0}
+			if k == 0 {
+				buf[7] = bias16 | 41920
+			}
+			m.tag("element-filter-collapse")
+			m.eval(fmt.Sprint("efc", buf), true)
+			if what := c05ElementFilter(buf); what != "" {
+				m.violate(violation{"C05", "efc", what, map[string]string{"words": joinU64(buf)}})
+			}
+		}
 	}
 }
 
 func init() {
+	replayers["efc"] = func(v violation, tmp string) (bool, string) {
+		what := c05ElementFilter(parseWordsGo(v.Params["words"]))
+		return what != "", what
+	}
 	replayers["crash"] = func(v violation, tmp string) (bool, string) {
 		prog, err := parseSX(v.Params["prog"])
 		if err != nil {
@@ -1391,14 +1521,15 @@ func listFailFiles(dir, name string) []string {
 
 func init() {
 	monitors["C06"] = func(r *rng, scale int, m *monOut, tmp string) {
-		names := []string{"TestA", "Test/sub test", "Тест_юникод", "con", "COM1", "a*b?c[d]", `back\slash`, "x..y", "LPT¹", strings.Repeat("long", 30)}
+		names := []string{"TestA", "Test/sub test", "Тест_юникод", "con", "COM1", "a*b?c[d]", `back\slash`, "x..y", "LPT¹", strings.Repeat("long", 30),
+			"Test/" + strings.Repeat("長い名前→、", 14) + "/end", strings.Repeat("a→", 60)} // (long, but the sanitized form still fits in a file name)
 		outputs := []string{"", "plain line", "line1\nline2\n", "\x00\xff\xfe binary \r\n# 0x12\n", strings.Repeat("x", 70000), "a\rb", "# v0.4.8#1\n0x1"}
 		for i := 0; i < 12*scale; i++ {
 			name := names[r.intn(len(names))]
 			output := outputs[r.intn(len(outputs))]
 			src := "((draw a (slice (i 0 1000) 0 6)) (draw b (i -9223372036854775808 9223372036854775807)) (if (ge b 1000) (fatal 1)))"
-			if r.chance(1, 4) {
-				src = "((fatal 1))" // empty bitstream
+			if r.chance(1, 4) || i == 1 {
+				src = "((fatal 1))" // empty bitstream: the fail file has a header and no data words
 			} else if r.chance(1, 3) || i == 0 {
 				// a long bitstream: the minimized test case has thousands of words (a fail file of many KB)
 				src = "((draw a (slice (u 0 18446744073709551615) 700 700)) (draw b (i -9223372036854775808 9223372036854775807)) (if (ge b 1000) (fatal 1)))"
@@ -1445,6 +1576,18 @@ func init() {
 						what = "rerun executed a random test case before replaying the fail file"
 					case strings.Join(run2.in.invs[0].draws, ";") != strings.Join(last1.draws, ";"):
 						what = fmt.Sprintf("rerun drew %v, the persisted case drew %v", run2.in.invs[0].draws, last1.draws)
+					}
+					if what == "" {
+						// the persisted failure reproduced: no random test case runs at all, and no second fail file appears
+						for k, inv := range run2.in.invs {
+							if !inv.isBuf {
+								what = fmt.Sprintf("rerun executed a random test case (invocation %d) although the fail file reproduces the failure", k)
+								break
+							}
+						}
+						if n := len(listFailFiles(dir, name)); what == "" && n != 1 {
+							what = fmt.Sprintf("%d fail files after the rerun (the failure came from the fail file)", n)
+						}
 					}
 					// explicit -rapid.failfile as well
 					if what == "" {
